@@ -90,3 +90,4 @@ fn c11_name_location_roundtrip() {
     kani::cover!(heap && start == u32::MAX - 3);
     kani::cover!(!heap && raw == ID_MASK);
 }
+
